@@ -24,7 +24,7 @@ def gen_cases(cfg, out, simulate=None, timeout=3000, name=None):
     return g, n
 
 
-def replay(cases, outprefix, nproc=12, probe=True, timeout=3000):
+def replay(cases, outprefix, nproc=12, probe=True, timeout=3000, mode=None):
     """Splits the case file over nproc harness processes; returns the merged report."""
     require_lockable_memory()
     build_shim()
@@ -32,6 +32,8 @@ def replay(cases, outprefix, nproc=12, probe=True, timeout=3000):
     procs = []
     env = dict(os.environ)
     env["LD_PRELOAD"] = SHIM
+    if mode:
+        env["PROT_MODE"] = mode
     for k in range(nproc):
         o = "%s.%d.json" % (outprefix, k)
         if os.path.exists(o):
